@@ -1248,6 +1248,227 @@ def run_adur_stream(ctx, n):
     ctx.cov["array_duration_stream"] = stats
 
 
+# ------------------------------------------------------------------ acquisition times with array-valued durations
+ATIME = [0.0, 0.5, 1.0, 1.5, 2.25, 4.0]
+
+
+def gen_atime_case(rng, k=0):
+    """timed operators with array-valued (one value per batch entry) and scalar durations before and between
+    several probes; nested lists / MultiOperators"""
+    n = rng.choice([2, 3, 3, 4])
+
+    def dur(p_array=0.55):
+        if rng.random() < p_array:
+            return [float(rng.choice(ATIME)) for _ in range(n)]
+        return float(rng.choice(ATIME))
+
+    def timed(force_array=False):
+        kind = rng.choice(["wait", "E", "P", "T", "S"])
+        d = dur(1.0 if force_array else 0.55)
+        it = {"kind": kind, "dur": d}
+        if kind == "wait" and not isinstance(d, list) and d == 0:
+            it["dur"] = 1.0
+        if kind == "S":
+            it["k"] = rng.choice([1, 2, -1])
+        if kind == "T":
+            it["alpha"], it["phi"] = float(rng.choice([30, 90, 150])), float(rng.choice([0, 90]))
+        return it
+    items = [timed(force_array=rng.random() < 0.6)]
+    nprobe = 0
+    for _ in range(rng.randint(3, 9)):
+        r = rng.random()
+        if r < 0.35:
+            items.append({"kind": "probe", "probe": rng.choice(["ADC", "Adc", "Probe"]), "dur": 0.0})
+            nprobe += 1
+        elif r < 0.42:
+            items.append({"kind": "offset", "dur": -float(rng.choice([0.5, 1.0]))})
+        elif r < 0.5 and len(items) > 1:
+            items.append(dict(rng.choice(items)))           # same description again (a new object)
+            nprobe += items[-1]["kind"] == "probe"
+        else:
+            items.append(timed())
+    while nprobe < 3:
+        items += [timed(force_array=nprobe == 1), {"kind": "probe", "probe": rng.choice(["ADC", "Adc", "Probe"]), "dur": 0.0}]
+        nprobe += 1
+    case = {"n": n, "items": items, "tree": gen_tree(rng, list(range(len(items))))}
+    return case
+
+
+def build_atime_item(it, entry=None):
+    """entry=None: the batched operator; entry=i: the scalar operator of batch entry i"""
+    import epgpy as epg
+    d = it["dur"]
+    if isinstance(d, list):
+        d = np.array(d) if entry is None else d[entry]
+    k = it["kind"]
+    if k == "probe":
+        return {"ADC": epg.ADC, "Adc": epg.Adc("Z0"), "Probe": epg.Probe("F0")}[it["probe"]]
+    if k == "offset":
+        return epg.Offset(d)
+    if k == "wait":
+        return epg.Wait(d)
+    if k == "E":
+        return epg.E(d, 900.0, 60.0, 0.01, duration=True)
+    if k == "P":
+        return epg.P(d, 0.02, duration=True)
+    if k == "T":
+        return epg.T(it["alpha"], it["phi"], duration=d)
+    if k == "S":
+        return epg.S(it["k"], duration=d)
+    raise ValueError(k)
+
+
+def atime_sequence(case, entry=None):
+    fake = {"items": [{"id": j} for j in range(len(case["items"]))], "tree": case["tree"]}
+    objs = {j: build_atime_item(it, entry) for j, it in enumerate(case["items"])}
+    return build_tree(fake, objs, None, [])
+
+
+def atime_flat(case):
+    out = []
+
+    def walk(tree):
+        for nd in tree:
+            if isinstance(nd, int):
+                out.append(case["items"][nd])
+            else:
+                walk(nd[1])
+    walk(case["tree"])
+    return out
+
+
+def atime_reference(case):
+    """cumulative sums of the durations up to every probe, per batch entry (exact rationals)"""
+    n = case["n"]
+    ref = []
+    tic = [Fraction(0)] * n
+    for it in atime_flat(case):
+        d = it["dur"]
+        tic = [t + Fraction(d[i] if isinstance(d, list) else d) for i, t in enumerate(tic)]
+        if it["kind"] == "probe":
+            ref.append([float(t) for t in tic])
+    return ref
+
+
+def per_entry(times, n):
+    """list of reported times (scalars or arrays over the batch) -> list over probes of n floats"""
+    out = []
+    for t in times:
+        a = np.asarray(t, dtype=float)
+        if a.size not in (1, n):
+            raise AssertionError("reported time has %d values for a batch of %d" % (a.size, n))
+        out.append([float(x) for x in np.broadcast_to(a.reshape(-1), (n,))])
+    return out
+
+
+def atime_observe(case):
+    import epgpy as epg
+    n = case["n"]
+    seq = atime_sequence(case)
+    t1, _ = epg.simulate(seq, adc_time=True, asarray=False)
+    a1 = epg.get_adc_times(seq)
+    keep1, keepa = [np.array(t, dtype=float, copy=True) for t in t1], [np.array(t, dtype=float, copy=True) for t in a1]
+    why = None
+    arrs = [("simulate time %d" % j, t) for j, t in enumerate(t1) if isinstance(t, np.ndarray)] + \
+           [("get_adc_times entry %d" % j, t) for j, t in enumerate(a1) if isinstance(t, np.ndarray)]
+    for x in range(len(arrs)):
+        for y in range(x + 1, len(arrs)):
+            if np.shares_memory(arrs[x][1], arrs[y][1]):
+                why = why or "%s and %s share memory" % (arrs[x][0], arrs[y][0])
+    # later calls must not change what was returned before
+    t2, _ = epg.simulate(seq, adc_time=True, asarray=False)
+    a2 = epg.get_adc_times(seq)
+    for name, now, kept in (("simulate(adc_time=True)", t1, keep1), ("get_adc_times", a1, keepa)):
+        for j, (x, y) in enumerate(zip(now, kept)):
+            if not np.array_equal(np.asarray(x, dtype=float), y):
+                why = why or "time %d returned by %s changed after a later call: %s -> %s" % (j, name, y.tolist(), np.asarray(x).tolist())
+    if not why and (per_entry(t2, n) != per_entry(t1, n) or per_entry(a2, n) != per_entry(a1, n)):
+        why = "a second call reports different times"
+    shapes = {np.shape(t) for t in t1}
+    if not why and len(shapes) == 1:
+        t3 = np.asarray(epg.simulate(seq, adc_time=True)[0], dtype=float)      # asarray=True (default)
+        if t3.shape != np.asarray(keep1).shape or not np.array_equal(t3, np.asarray(keep1)):
+            why = "simulate(adc_time=True) as one array %s differs from the list of times %s" % (t3.tolist(), [k.tolist() for k in keep1])
+    return {"sim": per_entry(keep1, n), "adc": per_entry(keepa, n), "why": why}
+
+
+def c_atime_tree(case, entry, tree=None):
+    tree = case["tree"] if tree is None else tree
+    out = []
+    for nd in tree:
+        if isinstance(nd, int):
+            it = case["items"][nd]
+            d = it["dur"][entry] if isinstance(it["dur"], list) else it["dur"]
+            out.append("(Leaf (%s %d%%nat %s %s))" % ("IProbe" if it["kind"] == "probe" else "IOp", 3 * nd,
+                                                    "PB" if it["kind"] == "probe" else "X", qq(d)))
+        else:
+            out.append("(Node %s %s)" % ("true" if nd[0] == "multi" else "false", c_atime_tree(case, entry, nd[1])))
+    return core.clist(out)
+
+
+def atime_case_disagrees(case, obs=None):
+    obs = obs or atime_observe(case)
+    if obs["why"]:
+        return obs["why"]
+    ref = atime_reference(case)
+    for name in ("sim", "adc"):
+        got = obs[name]
+        label = "simulate(adc_time=True)" if name == "sim" else "get_adc_times"
+        if len(got) != len(ref):
+            return "%s reports %d times for %d probes" % (label, len(got), len(ref))
+        for j, (g, r) in enumerate(zip(got, ref)):
+            for i in range(case["n"]):
+                if g[i] != r[i]:
+                    return "%s: time of probe %d for batch entry %d is %s, the cumulative sum of the durations is %s (all entries: reported %s, sums %s)" % (
+                        label, j, i, g[i], r[i], got, ref)
+    return None
+
+
+def run_atime_stream(ctx, n):
+    """every reported acquisition time, per batch entry, against the model's get_adc_times of the scalar sequence of that
+    entry (inside Coq) and against exact cumulative sums; returned time arrays independent of each other and of later calls"""
+    terms, meta = [], []
+    stats = {"cases": 0, "probes": 0, "array_durations": 0, "entries_checked_in_coq": 0}
+    reported = 0
+    for i in range(n):
+        case = gen_atime_case(ctx.rng, i)
+        try:
+            obs = atime_observe(case)
+            why = atime_case_disagrees(case, obs)
+        except Exception as e:
+            why, obs = "simulate()/get_adc_times raised %s with array-valued durations: %s" % (type(e).__name__, str(e)[:200]), None
+        stats["cases"] += 1
+        stats["probes"] += sum(1 for it in case["items"] if it["kind"] == "probe")
+        stats["array_durations"] += sum(1 for it in case["items"] if isinstance(it["dur"], list))
+        ctx.count(("atime", repr(case)), nontrivial=True)
+        if i < 1:
+            ctx.sample({"atime_case": {"items": [(it["kind"], it["dur"]) for it in case["items"]], "tree": repr(case["tree"])},
+                        "reported": None if obs is None else obs["sim"]})
+        if why:
+            reported += 1
+            if reported <= 4:
+                ctx.report(why, {"atime_case": case}, found_input=True, signature={"stream": "array_times", "why": why[:24]})
+            continue
+        for e in range(case["n"]):
+            tree = c_atime_tree(case, e)
+            terms.append("(qceqb (@get_adc_times QIops Qc %s) %s && qceqb (@get_adc_times QIops Qc %s) %s)" % (
+                tree, core.clist([qq(t[e]) for t in obs["sim"]]), tree, core.clist([qq(t[e]) for t in obs["adc"]])))
+            meta.append((case, e))
+    verdicts, errors = ctx.run_bool_cases("atime", MHEADER, terms, chunk=40)
+    for e in errors:
+        ctx.report("correspondence shard failed to evaluate", {"theorem_or_correspondence": "C12 array-time correspondence (Cases)", "coq_output": e}, found_input=False)
+    bad = 0
+    for (case, e), v in zip(meta, verdicts):
+        stats["entries_checked_in_coq"] += v is True
+        if v is False:
+            bad += 1
+            if bad <= 3:
+                ctx.report("times of batch entry %d differ from Run.get_adc_times of its scalar sequence (python sums agree with the implementation)" % e,
+                           {"atime_case": case, "theorem_or_correspondence": "C12 get_adc_times model vs epgpy"}, found_input=False,
+                           signature={"stream": "array_times", "why": "model"})
+    ctx.cov["array_time_stream"] = stats
+
+
 # ------------------------------------------------------------------ phasor stream (Interval inside Coq)
 PHEADER = """From Coq Require Import Reals.
 From Interval Require Import Tactic.
@@ -1324,6 +1545,21 @@ def grouping_probe(name):
         except Exception as e:
             return "modify(att of size 3) on a T of batch size 2 raised %s: %s" % (type(e).__name__, e)
         return None
+    if name == "times_scalar_then_array":
+        # a probe before the first array-valued duration, another one after it: the times are a scalar and an array
+        seq = [epg.T(90, 90), epg.Wait(1.5), epg.ADC, epg.Wait(np.array([1.0, 2.0, 0.0])), epg.ADC]
+        ref = np.array([[1.5, 1.5, 1.5], [2.5, 3.5, 1.5]])
+        lst = epg.simulate(seq, adc_time=True, asarray=False)[0]
+        if not np.array_equal(np.asarray(np.broadcast_arrays(*[np.asarray(t, dtype=float) for t in lst])), ref):
+            return "simulate(adc_time=True, asarray=False) reports %s, cumulative sums are %s" % (lst, ref.tolist())
+        try:
+            t = np.asarray(epg.simulate(seq, adc_time=True)[0], dtype=float)
+        except Exception as e:
+            return ("simulate([T, Wait(1.5), ADC, Wait(array([1,2,0])), ADC], adc_time=True) with the default asarray=True raised %s: %s "
+                    "(asarray=False reports %s)" % (type(e).__name__, str(e)[:120], lst))
+        if t.shape != ref.shape or not np.array_equal(t, ref):
+            return "simulate(adc_time=True) reports %s, cumulative sums are %s" % (t.tolist(), ref.tolist())
+        return None
     if name == "multi_explicit_duration":
         m = operator.MultiOperator([epg.T(90, 90), epg.S(1)], duration=5.0)
         t1 = [float(t) for t in epg.get_adc_times([m, epg.ADC])]
@@ -1338,6 +1574,7 @@ GROUPING_SIGNATURES = {
     "mul_offset": {"call": "Operator.__mul__", "first_members": "Offset", "partial_total": "negative"},
     "att_grid": {"call": "modify", "att": "array", "T": "batched", "expand": True},
     "multi_explicit_duration": {"call": "MultiOperator", "duration": "explicit", "timing": "ignored"},
+    "times_scalar_then_array": {"call": "simulate", "adc_time": True, "asarray": True, "times": "scalar then array"},
 }
 
 
@@ -1359,6 +1596,7 @@ def run(ctx):
     run_snap_stream(ctx, 40 if quick else 600)
     run_mod_stream(ctx, 100 if quick else 1500)
     run_adur_stream(ctx, 25 if quick else 400)
+    run_atime_stream(ctx, 40 if quick else 600)
     run_phasor_stream(ctx, 12 if quick else 120)
     run_grouping_probes(ctx)
     ctx.cov["trusted_base"] += [
@@ -1413,6 +1651,13 @@ def replay(ctx, rp):
         why = oracle_disagrees(case, obs)
     elif "snap_case" in rp:
         why = snap_case_bad(fix_case(rp["snap_case"]), {"views": 0, "trunc": 0})
+    elif "atime_case" in rp:
+        case = rp["atime_case"]
+        case["tree"] = untuple(case["tree"])
+        try:
+            why = atime_case_disagrees(case)
+        except Exception as e:
+            why = "simulate()/get_adc_times raised %s: %s" % (type(e).__name__, e)
     elif "adur_case" in rp:
         try:
             why = adur_case_disagrees(rp["adur_case"])
